@@ -1,6 +1,7 @@
 """Client rules (C12, C13): S-COMPLETE, P-MATCH, P-DISCARD, P-GATEWAY, P-BUNDLE, T-PATHSYNTAX."""
 import ast
 
+from .core import Matcher
 from .core import ( rule, Result, AnalysisError, dotted, call_name, is_call_to, names_in, attrs_in, walk_no_nested,
                     norm_text, dotted_in, stmt_of, pmatch, pfind, txt )
 from .fold import try_fold
@@ -31,8 +32,13 @@ def s_complete( ctx ):
     src = ctx.src( CLIENT )
     op = src.get( 'connector.operate' )
     drivers = []
+    # the harvest stream is the local that operate() finally iterates to yield from
+    outs = [ f for f in op.body if isinstance( f, ast.For ) and isinstance( f.iter, ast.Name ) and any( isinstance( y, ast.Yield ) for y in ast.walk( f )) ]
+    if not outs:
+        raise AnalysisError( 'connector.operate: the final loop yielding the harvested results not found' )
+    HV = outs[-1].iter.id
     for s in ast.walk( op ):
-        if isinstance( s, ast.Assign ) and dotted( s.targets[0] ) == 'harvested' and isinstance( s.value, ast.Call ) \
+        if isinstance( s, ast.Assign ) and dotted( s.targets[0] ) == HV and isinstance( s.value, ast.Call ) \
            and isinstance( s.value.func, ast.Attribute ) and dotted( s.value.func.value ) == 'self' and s.value.func.attr not in ( 'validate', ):
             drivers.append( s.value.func.attr )
     if len( drivers ) < 2:
@@ -134,34 +140,52 @@ def p_discard( ctx ):
     res = Result( 'P-DISCARD' )
     src = ctx.src( CLIENT )
     co = src.get( 'connector.collect' )
-    ifs = [ i for i in ast.walk( co ) if isinstance( i, ast.If ) and pmatch( i.test, 'not replies' ) and any( isinstance( b, ast.Return ) for b in i.body ) ]
-    if ifs:
+    # the reply list is whatever local receives enip_replies( ... )
+    CM = Matcher()
+    got = CM.find( co, '_replies = enip_replies( _r, multiple=_m )' ) if True else None
+    if got is None:
+        got = CM.find( co, '_replies = enip_replies( _r )' )
+    RP = CM.name( '_replies' ) or 'replies'
+    ifs = [ i for i in ast.walk( co ) if isinstance( i, ast.If ) and pmatch( i.test, 'not %s' % RP ) and any( isinstance( b, ast.Return ) for b in i.body ) ]
+    if ifs and got is not None:
         res.ok( src, ifs[0], 'collect: ends the reply stream when enip_replies reports timeout (None) or EOF ({})' )
     else:
         res.bad( src, co, 'connector.collect', 'on timeout or EOF the reply stream must end (no reply can be matched reliably afterwards)' )
     er = src.get( 'enip_replies' )
-    want = { 'ENIPStatusError': 'response.enip.status != 0', 'SENDStatusError': 'send_status', 'MSVCStatusError': 'msvc_status' }
-    for exc, cond in want.items():
+    RESP = er.args.args[0].arg
+    # roles: the status locals are read from the `status` entry of the send / request level
+    want = { 'ENIPStatusError': ( '%s.enip.status != 0' % RESP, None ), 'SENDStatusError': ( '_st', 'status' ), 'MSVCStatusError': ( '_st', 'status' ) }
+    for exc, ( cond, key ) in want.items():
         hit = False
         for i in ast.walk( er ):
             if isinstance( i, ast.If ) and any( isinstance( b, ast.Raise ) and exc in txt( b ) for b in i.body ):
-                if pmatch( i.test, cond ):
+                m = pmatch( i.test, cond )
+                if m is not None and key is None:
                     hit = True
+                elif m is not None and isinstance( m['_st'], ast.Name ):
+                    # the tested local was read as <level>.get( 'status' ) and is the one handed to the exception
+                    rd = pfind( er, "%s = _lvl.get( 'status' )" % m['_st'].id )
+                    if rd and any( isinstance( b, ast.Raise ) and pmatch( b.exc, '%s( status=%s )' % ( exc, m['_st'].id )) for b in i.body ):
+                        hit = True
         if hit:
-            res.ok( src, er, 'enip_replies raises %s when %s' % ( exc, cond ))
+            res.ok( src, er, 'enip_replies raises %s on a non-zero status' % exc )
         else:
             res.bad( src, er, 'enip_replies / %s' % exc, 'a non-zero %s status must raise: the session is de-synchronised' % exc )
-    if [ i for i in ast.walk( er ) if isinstance( i, ast.If ) and pmatch( i.test, 'response is None' ) and any( pmatch( b, 'return None' ) for b in i.body ) ]:
+    if [ i for i in ast.walk( er ) if isinstance( i, ast.If ) and pmatch( i.test, '%s is None' % RESP ) and any( pmatch( b, 'return None' ) for b in i.body ) ]:
         res.ok( src, er, 'enip_replies: None (timeout) -> None' )
     else:
         res.bad( src, er, 'enip_replies timeout', 'a timeout (None response) must be reported as None' )
-    asr = [ a for a in ast.walk( er ) if isinstance( a, ast.Assert ) and pmatch( a.test, 'replies' ) ]
+    frets = [ r for r in er.body if isinstance( r, ast.Return ) and isinstance( r.value, ast.Name ) ]
+    ERP = frets[-1].value.id if frets else 'replies'
+    asr = [ a for a in ast.walk( er ) if isinstance( a, ast.Assert ) and pmatch( a.test, ERP ) ]
     if asr:
         res.ok( src, asr[0], 'enip_replies asserts that a reply list was found' )
     else:
         res.bad( src, er, 'enip_replies', 'an unrecognised response must raise, not yield an empty reply list' )
     aw = src.get( 'await_response' )
-    if pfind( aw, 'response = dotdict()' ) and [ f for f in ast.walk( aw ) if isinstance( f, ast.For ) and dotted( f.iter ) == 'cli' ]:
+    afor = [ f for f in ast.walk( aw ) if isinstance( f, ast.For ) and dotted( f.iter ) == aw.args.args[0].arg and isinstance( f.target, ast.Name ) ]
+    if afor and [ s_ for s_ in aw.body[:aw.body.index( afor[0] )] if pmatch( s_, '%s = dotdict()' % afor[0].target.id ) ] \
+       and any( isinstance( r.value, ast.Tuple ) and dotted( r.value.elts[0] ) == afor[0].target.id for r in aw.body if isinstance( r, ast.Return )):
         res.ok( src, aw, 'await_response: EOF (StopIteration at once) -> {}, timeout -> None' )
     else:
         res.bad( src, aw, 'await_response', 'EOF must be reported as an empty response, timeout as None' )
@@ -284,16 +308,22 @@ def p_bundle( ctx ):
         res.bad( src, fn, 'connector.issue bundling condition', 'the keep-collecting test must conjoin the size test with route_path and send_path equality' )
         return res
     t = keep[0].test
-    conj = [ txt( v ) for v in t.values ]
+    loop = [ f for f in fn.body if isinstance( f, ast.For ) and dotted( f.iter ) == 'operations' and isinstance( f.target, ast.Name ) ]
+    if len( loop ) != 1:
+        raise AnalysisError( 'connector.issue: operations loop not found' )
+    OP = loop[0].target.id
+    BM = Matcher()		# roles: the per-bundle path record and the queued-request list
     for p in ( 'route_path', 'send_path' ):
-        pat = "requests_paths.setdefault('%s',op.get('%s'))==op.get('%s')" % ( p, p, p )
-        alt = "op.get('%s')==requests_paths.setdefault('%s',op.get('%s'))" % ( p, p, p )
-        if pat in conj or alt in conj:
+        hit = [ v for v in t.values if BM.m( v, "_paths.setdefault( '%s', %s.get( '%s' )) == %s.get( '%s' )" % ( p, OP, p, OP, p ))
+                or BM.m( v, "%s.get( '%s' ) == _paths.setdefault( '%s', %s.get( '%s' ))" % ( OP, p, p, OP, p )) ]
+        if hit:
             res.ok( src, keep[0], 'bundle extended only when %s equals the bundle\'s' % p )
         else:
             res.bad( src, keep[0], t, 'operations with a different %s must not be merged into one Multiple Service Packet' % p )
+    PATHS = BM.name( '_paths' ) or 'requests_paths'
     size = [ v for v in t.values if 'multiple' in names_in( v ) ]
-    if size and pmatch( size[0], 'not requests or max( reqsiz + reqest, rpysiz + rpyest ) < multiple' ):
+    SM = Matcher()
+    if size and SM.m( size[0], 'not _requests or max( _a + _b, _c + _d ) < multiple' ):
         res.ok( src, keep[0], 'bundle extended only while estimated request and reply sizes stay below the limit (a first member always fits)' )
     elif size:
         res.note( 'size conjunct: ' + norm_text( size[0] ))
@@ -303,9 +333,7 @@ def p_bundle( ctx ):
     # index accounting: each `index += 1` follows the yield(s) of one wire request
     cfg = CFG( fn )
     incs = [ n for n in cfg.nodes if n.kind == 'stmt' and isinstance( n.stmt, ast.AugAssign ) and dotted( n.stmt.target ) == 'index' ]
-    loop = [ f for f in fn.body if isinstance( f, ast.For ) and dotted( f.iter ) == 'operations' ]
-    if len( loop ) != 1:
-        raise AnalysisError( 'connector.issue: operations loop not found' )
+    REQS = SM.name( '_requests' ) or 'requests'
     h = cfg.node_of( loop[0] )
     first = [ m for m, l in cfg.succ[h] if l == 'true' ]
     backs = [ p for p, l in cfg.pred[h] if l in ( 'back', 'continue' ) ]
@@ -323,7 +351,9 @@ def p_bundle( ctx ):
             res.bad( src, sn.stmt, sn.stmt, 'after sending a bundle the index must advance before the next request is issued' )
     # the context used for the bundle and yielded with each member is the loop's sender_context = index_to_sender_context( index ):
     # after every advance of index the context is recomputed before the next operation is issued
-    recomp = [ n for n in cfg.nodes if n.kind == 'stmt' and n.stmt is not None and pmatch( n.stmt, 'sender_context = self.index_to_sender_context( index )' ) ]
+    XM = Matcher()
+    recomp = [ n for n in cfg.nodes if n.kind == 'stmt' and n.stmt is not None and XM.m( n.stmt, '_sc = self.index_to_sender_context( index )' ) ]
+    SC = XM.name( '_sc' ) or 'sender_context'
     if recomp:
         res.ok( src, recomp[0].stmt, 'sender_context is derived from index' )
         for inc in [ n for n in incs if src.enclosing( n.stmt, ( ast.For, )) is loop[0] ]:
@@ -335,11 +365,13 @@ def p_bundle( ctx ):
         res.bad( src, fn, 'sender_context', 'the sender context must be derived from the request index' )
     # the bundle's paths are recorded whenever an operation is queued: after every reset of requests_paths, both keys are set (again)
     # before the next iteration, on every path that queues the operation
-    appends = [ n for n in cfg.nodes if n.kind == 'stmt' and n.stmt is not None and pfind( n.stmt, 'requests.append( _x )' ) ]
-    resets = [ n for n in cfg.nodes if n.kind == 'stmt' and n.stmt is not None and pmatch( n.stmt, 'requests_paths = {}' ) and src.enclosing( n.stmt, ( ast.For, )) is loop[0] ]
+    appends = [ n for n in cfg.nodes if n.kind == 'stmt' and n.stmt is not None and pfind( n.stmt, '%s.append( _x )' % REQS ) ]
+    resets = [ n for n in cfg.nodes if n.kind == 'stmt' and n.stmt is not None and pmatch( n.stmt, '%s = {}' % PATHS ) and src.enclosing( n.stmt, ( ast.For, )) is loop[0] ]
+    if not appends or not resets:
+        raise AnalysisError( 'connector.issue: queueing ( %s.append ) or bundle reset ( %s = {} ) not found' % ( REQS, PATHS ))
     for key in ( 'route_path', 'send_path' ):
         sets = [ n for n in cfg.nodes if n.own() is not None and any(
-            is_call_to( c, 'requests_paths.setdefault' ) and c.args and try_fold( c.args[0] ) == key for c in ast.walk( n.own() ) if isinstance( c, ast.Call )) ]
+            is_call_to( c, PATHS + '.setdefault' ) and c.args and try_fold( c.args[0] ) == key for c in ast.walk( n.own() ) if isinstance( c, ast.Call )) ]
         bad = False
         for r in resets:
             for a in appends:
@@ -348,14 +380,14 @@ def p_bundle( ctx ):
                     ab = cfg.reachable( a, avoid=set( sets ), edge_ok=lambda x, y, l: True, stop=[ h ] )
                     if h in ab:
                         bad = True
-                        res.bad( src, a.stmt, 'operation queued after requests_paths = {} without recording its %s' % key,
+                        res.bad( src, a.stmt, 'operation queued after the bundle paths were reset without recording its %s' % key,
                                  'the next operation compares its %s only with itself and joins the bundle: operations with different route/send paths are mixed in one Multiple Service Packet' % key )
         if not bad and resets and appends and sets:
             res.ok( src, appends[0].stmt, 'a queued operation always (re)records the bundle\'s %s' % key )
         elif not sets:
-            res.bad( src, fn, 'requests_paths %s' % key, 'the bundle never records its %s' % key )
+            res.bad( src, fn, 'bundle paths: %s' % key, 'the bundle never records its %s' % key )
     for y in [ y for y in ast.walk( fn ) if isinstance( y, ast.Yield ) ]:
-        if isinstance( y.value, ast.Tuple ) and [ dotted( e ) for e in y.value.elts[:2] ] == [ 'index', 'sender_context' ]:
+        if isinstance( y.value, ast.Tuple ) and [ dotted( e ) for e in y.value.elts[:2] ] == [ 'index', SC ]:
             res.ok( src, y, 'yields ( index, sender_context, ... )', nontrivial=False )
         else:
             res.bad( src, y, y, 'every issued record must carry the index and sender context of its wire request' )
@@ -415,8 +447,22 @@ def p_fresh( ctx ):
             yv = y.stmt.value.value
             names = [ e.id for e in ( yv.elts if isinstance( yv, ast.Tuple ) else [ yv ] ) if isinstance( e, ast.Name ) ]
             target_names = { t.id for t in ast.walk( loop.target ) if isinstance( t, ast.Name ) } if isinstance( loop, ast.For ) else set()
+            # deliberately loop-carried values: counters (only ever augmented inside the loop) and pure functions of such counters
+            def in_loop_stores( v ):
+                return [ n.stmt for n in cfg.nodes if n.stmt is not None and n.kind == 'stmt' and _within( src, n.stmt, loop )
+                         and ( _assigns( n, v ) or ( isinstance( n.stmt, ast.AugAssign ) and dotted( n.stmt.target ) == v )) ]
+            def is_counter( v ):
+                st = in_loop_stores( v )
+                return bool( st ) and all( isinstance( a, ast.AugAssign ) for a in st )
+            def carried( v ):
+                if ( qn, ) not in FRESH_CARRIED:
+                    return False
+                if is_counter( v ):
+                    return True
+                st = in_loop_stores( v )
+                return bool( st ) and all( isinstance( a, ast.Assign ) and names_in( a.value ) - { 'self' } and all( is_counter( x ) for x in names_in( a.value ) - { 'self' } ) for a in st )
             for v in names:
-                if v in target_names or ( qn, v ) in FRESH_EXEMPT:
+                if v in target_names or carried( v ):
                     continue
                 assigns = [ n for n in cfg.nodes if n.stmt is not None and n.kind in ( 'stmt', 'for' ) and _assigns( n, v ) and _within( src, n.stmt, loop ) ]
                 if not assigns:
@@ -432,9 +478,8 @@ def p_fresh( ctx ):
     return res
 
 
-FRESH_EXEMPT = {
-    ( 'connector.issue', 'sender_context' ): 'deliberately loop-carried: derived from index at the end of each iteration for the next wire request',
-    ( 'connector.issue', 'index' ): 'deliberately loop-carried: the wire-request counter',
+FRESH_CARRIED = {
+    ( 'connector.issue', ): 'the wire-request counter and the sender context derived from it are deliberately loop-carried: one value per wire request, advanced at the end of the iteration that sent it',
 }
 
 
